@@ -177,6 +177,19 @@ Proof.
     apply (abs_top_den (hp s) (vars s)); auto; try (apply geth_In; auto); apply values_geth; auto.
 Qed.
 
+(* a string against a scalar, in either order: operator== of a string hands over to the scalar's case, which converts
+   the string (corollary of the refinement and of the shape of veq) *)
+Theorem string_equality_decided_by_scalar_side s vs i j str sc :
+  reachable s -> values_of s vs -> i < length (vars s) -> j < length (vars s) ->
+  getv vs i = VStr str -> getv vs j = VS sc ->
+  meq_top (hp s) (geth (vars s) i) (geth (vars s) j) = eq_scalar_lhs sc (VStr str) /\
+  meq_top (hp s) (geth (vars s) j) (geth (vars s) i) = eq_scalar_lhs sc (VStr str).
+Proof.
+  intros R A Li Lj Ei Ej.
+  rewrite (equality_is_spec_equality s vs i j R A Li Lj), (equality_is_spec_equality s vs j i R A Lj Li), Ei, Ej.
+  split; reflexivity.
+Qed.
+
 Theorem variant_equal_to_copy s vs i j o :
   reachable s -> values_of s vs -> (o = OCopyNew i j \/ o = OAssign i [] j []) ->
   exists s' out, mstep s o = Some (s', out) /\
